@@ -15,6 +15,16 @@ MLAY = "src/allmydata/mutable/layout.py"
 
 PINNED = "test_netstring exercises this function, so the utility tests also notice; kept to show the rule sees it"
 
+H_RENEW = ("    def renew(self, new_expire_time):\n"
+           "        # Preserve the HashedLeaseInfo wrapper around the renewed LeaseInfo.\n"
+           "        return attr.assoc(\n"
+           "            self,\n"
+           "            _lease_info=super(HashedLeaseInfo, self).renew(new_expire_time),\n"
+           "        )\n"
+           "\n")
+SER_HASH = ("        if isinstance(lease, LeaseInfo):\n"
+            "            # v2 of the immutable schema stores lease secrets hashed.  If\n")
+
 CCS_READ = ("        f.seek(old_extra_lease_offset)\n"
             "        leases_size = 4 + num_extra_leases * self.LEASE_SIZE\n"
             "        extra_lease_data = f.read(leases_size)\n")
@@ -289,6 +299,39 @@ MUTANTS = [
     M("benign-move-size-inlined", MUT, CCS_READ,
       "        start = old_extra_lease_offset\n        f.seek(start)\n        extra_lease_data = f.read(num_extra_leases * self.LEASE_SIZE + 4)\n"
       "        leases_size = len(extra_lease_data)\n", None),
+    # ---- C38.13.12 / C38.13.5 (= C25.12 / C25.5) a stored hashed lease is written back with the secrets it was read with
+    M("renew-override-removed-as-redundant", LEASE, H_RENEW, "", "C38.13.12",
+      note="seeded C38-E: proxyForInterface forwards renew to the wrapped LeaseInfo; the bare result is hashed again on write"),
+    M("renew-override-removed-reported-by-13-5-too", LEASE, H_RENEW, "", "C38.13.5"),
+    M("renew-override-forwards-by-hand", LEASE, H_RENEW,
+      "    def renew(self, new_expire_time):\n        return self._lease_info.renew(new_expire_time)\n\n", "C38.13.12"),
+    M("renew-override-copies-the-wrapped-lease", LEASE, H_RENEW,
+      "    def renew(self, new_expire_time):\n        renewed = attr.assoc(self._lease_info, _expiration_time=new_expire_time)\n"
+      "        return renewed\n\n", "C38.13.12"),
+    M("serializer-hashes-both-lease-types", LS, SER_HASH,
+      SER_HASH.replace("isinstance(lease, LeaseInfo)", "isinstance(lease, (LeaseInfo, HashedLeaseInfo))"), "C38.13.12"),
+    M("serializer-duck-types-the-lease", LS, SER_HASH, SER_HASH.replace("isinstance(lease, LeaseInfo)", "hasattr(lease, \"cancel_secret\")"),
+      "C38.13.12"),
+    M("renewed-record-rebuilt-from-stored-lease", MUT, "                        lease = lease.renew(new_expire_time)\n",
+      "                        lease = LeaseInfo(lease.owner_num, renew_secret, lease.cancel_secret,\n"
+      "                                          new_expire_time, lease.nodeid)\n", "C38.13.12"),
+    M("renew-rehashes-inside-the-wrapper", LEASE, H_RENEW,
+      "    def renew(self, new_expire_time):\n        inner = self._lease_info.renew(new_expire_time)\n"
+      "        inner = attr.assoc(inner, _renew_secret=self._hash(inner.renew_secret))\n"
+      "        return attr.assoc(self, _lease_info=inner)\n\n", "C38.13.5",
+      note="stays in the wrapper but the stored H(s) becomes H(H(s)) in the record written back"),
+    M("benign-renew-builds-new-wrapper", LEASE, H_RENEW,
+      "    def renew(self, new_expire_time):\n        renewed = self._lease_info.renew(new_expire_time)\n"
+      "        return HashedLeaseInfo(renewed, self._hash)\n\n", None),
+    M("benign-renew-evolve-hoisted", LEASE, H_RENEW,
+      "    def renew(self, new_expire_time):\n        renewed = super(HashedLeaseInfo, self).renew(new_expire_time)\n"
+      "        return attr.evolve(self, lease_info=renewed)\n\n", None),
+    M("benign-serializer-tests-for-wrapper", LS, SER_HASH,
+      SER_HASH.replace("isinstance(lease, LeaseInfo)", "not isinstance(lease, HashedLeaseInfo)"), None),
+    M("benign-renewed-lease-hoisted", IMM, "                    lease = lease.renew(new_expire_time)\n                    with open(self.home, 'rb+') as f:\n"
+      "                        self._write_lease_record(f, i, lease)\n",
+      "                    renewed = lease.renew(new_expire_time)\n                    with open(self.home, 'rb+') as f:\n"
+      "                        self._write_lease_record(f, i, renewed)\n", None),
     # ---- C38.14 data-region writes stay below the extra-lease block
     M("data-gap-filled-before-growth", MUT, "            if self.DATA_OFFSET+offset+length > extra_lease_offset:\n",
       "            if offset > data_length:\n                f.seek(self.DATA_OFFSET+data_length)\n"
